@@ -91,6 +91,18 @@ def main(tier, seed, replay=None):
             bad.append("import list bound %s, the module defines only shown and f of the listed names" % sorted(a2 - b2))
         for nm in ("s3", "f"):
             I.environment.map.pop(nm, None)
+        # one require statement evaluated several times with a module spec that changes (a loop over names, a helper function)
+        J = impl.new_interpreter(False, False)
+        J.base_environment.put("checkerlang_module_path", ValueList().addItem(ValueString(d)))
+        J.base_environment.put("loadlog", ValueList())
+        try:
+            J.interpret("for mname in ['c11ctr', 'c11user', 'c11peek'] do require mname end", "imp")
+            got = {k: sorted(m for m in v.value if not m.startswith("_")) for k, v in J.environment.map.items() if k.startswith("c11")}
+        except CklRuntimeError as e:
+            got = "ERR " + str(e)[:80]
+        rep.count()
+        if got != {"c11ctr": ["f", "shown"], "c11user": ["g"], "c11peek": ["peek", "seen"]}:
+            bad.append("for mname in [..] do require mname end bound %s" % (got,))
         if [x.value for x in log.value] != [1]:
             bad.append("c11ctr ran %d times" % len(log.value))
         if ev("[c11ctr->shown, c11ctr->f(), again->f(), g(), s2]") != "[2, 3, 3, 3, 2]":
